@@ -31,3 +31,7 @@ def fill(claim, not_yet):
 		'Every run re-derives the built-in rules from gram.lark, recompiles both shipped grammars with gram_check.App.render_rules and compares with the checked-in modules (as Python modules and as executed rule sets), then round-trips thousands of generated canonical rule sets through pretty/parse/from_ast with exact structural comparison and checks that original and reparsed rules give the same trees or the same rejection on derived and mutated sentences.',
 		'Trusted: the structural comparator (Pattern defines no __eq__) and the sentence deriver in vf/props/c12.py. Generated rule sets avoid in-place recursion / nullable repeats (engine would not terminate; generator bound).',
 		'DESIGN.md §4 C12')
+	claim('C11', 'exploration', 'runtime monitoring: differential parsing — the real self-hosted engine vs CPython ast on sentences of the shipped grammar, with a logical step budget on the engine\'s matcher and a parser for its error summaries',
+		'Sentences following every alternative of py_gram.lark are parsed by SyntaxParser(py_rules()) and by ast.parse, both trees are mapped into one neutral form and compared; mutated sentences must be accepted with a matching tree or rejected with Errors.Syntax whose summary names a token of the input, an existing line and a caret under that token. Rule names seen in the produced trees are reported as coverage.',
+		'Trusted: CPython ast, vf/oracle/pycanon.py (two small mappings). The engine is slow on deep sentences, so depth is bounded (<= 4) and a 400k matcher-call budget marks the rest inconclusive.',
+		'DESIGN.md §4 C11')
